@@ -63,18 +63,34 @@ def dispersion_rules(ctx):
         # identify the iterate and the residual among the carried variables by their initial values
         k0 = op("where", CMP("gt", w, sp.sqrt(g / d)), w**2 / g, w / sp.sqrt(g * d))
         iterate = residual = None
-        for name, (orig, sym, fin) in L.carried.items():
-            if sym is None:
-                continue
-            if T.equivalent(orig, k0) == T.Verdict.EQUAL:
-                iterate = (name, orig, sym, fin)
+        # the iterate is identified by its role, not by its first guess: a carried variable k with a carried companion e whose
+        # value before the loop is omega(k_before) - w
+        cands = [(nm, v) for nm, v in L.carried.items() if v[1] is not None]
+        for nk, (ok_, sk, fk) in cands:
+            for ne, (oe, se, fe) in cands:
+                if ne != nk and T.equivalent(oe, omega_ref(T.to_term(ok_), d, g) - w) == T.Verdict.EQUAL:
+                    iterate = (nk, T.to_term(ok_), sk, fk)
         if iterate is None:
             names = {n: T.show(v[0], 120) for n, v in L.carried.items()}
-            ctx.bad("R07.2", C + "[first guess]", "no loop-carried iterate starts from the regime-based first guess "
-                    "where(w > sqrt(g/d), w^2/g, w/sqrt(g*d))", L.loc, derived=str(names), required=k0)
+            ctx.unsure("R07.2", C + "[first guess]", "no loop-carried iterate with a companion residual omega(k) - w was identified",
+                       L.loc, derived=str(names))
         else:
-            ctx.ok("R07.2", C + "[first guess]", "iterate starts from where(w > sqrt(g/d), w^2/g, w/sqrt(g*d))", L.loc,
-                   derived=iterate[1], required=k0)
+            from ..signs import SignAnalysis, POS, show as _show
+            sa_ = SignAnalysis([(lambda t: t in (w, d, g), POS, "w > 0, depth > 0, g > 0")])
+            sg = sa_.sign(iterate[1])
+            same_as_doc = T.equivalent(iterate[1], k0) == T.Verdict.EQUAL
+            swapped = T.equivalent(iterate[1], op("where", CMP("gt", w, sp.sqrt(g / d)), w / sp.sqrt(g * d), w**2 / g)) == T.Verdict.EQUAL
+            if swapped:
+                ctx.bad("R07.2", C + "[first guess]", "the deep-water estimate w^2/g is used where w <= sqrt(g/d) (shallow) and the shallow-water "
+                        "estimate w/sqrt(g d) where the water is deep: the iteration starts far from the root in both regimes and does not "
+                        "reach the tolerance within the iteration budget for large and small kd", L.loc, derived=iterate[1], required=k0)
+            else:
+                ctx.expect(True if (sg == POS or same_as_doc) else (False if not sg & POS else None), "R07.2", C + "[first guess]",
+                           "the Newton iteration starts from a positive wavenumber (here the regime-based guess "
+                           "where(w > sqrt(g/d), w^2/g, w/sqrt(g*d)))" if same_as_doc else
+                           f"the Newton iteration starts from a positive wavenumber (sign set {_show(sg)})", L.loc,
+                           derived=iterate[1], required="k_0 > 0")
+            k0 = iterate[1]
             kc = iterate[2]
             for name, (orig, sym, fin) in L.carried.items():
                 if sym is None or name == iterate[0]:
